@@ -50,6 +50,7 @@ type vkTelemetry struct{}
 func (vkTelemetry) SendMessage(json.Marshaler) {}
 
 type vkChain struct {
+	db     database.Database
 	bs     *state.BlockState
 	ss     *state.InmemoryStorageState
 	sm     *StateModule
@@ -72,7 +73,7 @@ func vkNewChain(t *testing.T) *vkChain {
 	if err != nil {
 		t.Fatalf("VERIF-INFRA storage state: %v", err)
 	}
-	return &vkChain{bs: bs, ss: ss, sm: NewStateModule(nil, ss, nil, nil), hashes: []common.Hash{header.Hash()}}
+	return &vkChain{db: db, bs: bs, ss: ss, sm: NewStateModule(nil, ss, nil, nil), hashes: []common.Hash{header.Hash()}}
 }
 
 // mutate commits one write on top of the best block's state and adds a block for it.
@@ -173,6 +174,66 @@ func vkPrefixClass(p []byte) string {
 		return "prefix-last-nibble-zero"
 	}
 	return "plain"
+}
+
+// vkFaultyDB fails exactly one Get: the failAt-th.
+type vkFaultyDB struct {
+	database.Database
+	n, failAt int
+}
+
+func (d *vkFaultyDB) Get(key []byte) ([]byte, error) {
+	d.n++
+	if d.n == d.failAt {
+		return nil, fmt.Errorf("harness: injected read failure #%d", d.failAt)
+	}
+	return d.Database.Get(key)
+}
+
+var vkProbes int
+
+func vkProbeFaultyLoad(t *testing.T, res *vResult, c *vkChain, beh, si int, o vkOp, p []byte, es string, expKeys []string, prefix []json.RawMessage) {
+	vkProbes++
+	if vkProbes%4 != 0 {
+		return
+	}
+	for _, failAt := range []int{1, 2, 3, 5, 8, 13} {
+		ss2, err := state.NewStorageState(&vkFaultyDB{Database: c.db, failAt: failAt}, c.bs, state.NewTries())
+		if err != nil {
+			t.Fatalf("VERIF-INFRA storage state over faulty db: %v", err)
+		}
+		sm2 := NewStateModule(nil, ss2, nil, nil)
+		pfx := vkHex(p)
+		errs := 0
+		for attempt := 0; attempt < 3; attempt++ {
+			var out StatePairResponse
+			var callErr error
+			pm := vTry(func() { callErr = sm2.GetPairs(nil, &StatePairRequest{Prefix: &pfx, Bhash: c.block(o.B)}, &out) })
+			res.Case("Pairs-after-failed-read", fmt.Sprintf("%d|%d", failAt, attempt))
+			res.Cmp()
+			if pm != "" {
+				res.Fail(beh, si, "Pairs", "panic", "no panic", pm, "C38/Pairs/after-failed-read/panic", prefix)
+				return
+			}
+			if callErr != nil {
+				errs++
+				continue
+			}
+			got := map[string]string{}
+			var gotKeys []string
+			for _, it := range out {
+				if pr, ok := it.([]string); ok && len(pr) == 2 {
+					got[pr[0]] = pr[1]
+					gotKeys = append(gotKeys, pr[0])
+				}
+			}
+			sort.Strings(gotKeys)
+			if gs := vkPairString(got); gs != es {
+				res.Fail(beh, si, "Pairs", "pairs", es, fmt.Sprintf("%s (read #%d failed, attempt %d, %d earlier errors)", gs, failAt, attempt, errs), "C38/Pairs/after-failed-read/keys-or-values", prefix)
+				return
+			}
+		}
+	}
 }
 
 func TestVerifKeyPaging(t *testing.T) {
@@ -318,6 +379,11 @@ func TestVerifKeyPaging(t *testing.T) {
 				sort.Strings(gotKeys)
 				sort.Strings(expKeys)
 				es, gs := vkPairString(exp), vkPairString(got)
+				// the same listing after a restart during which ONE database read fails: the request that hits the failure
+				// may return an error, but no later request may answer from a half-loaded state
+				if o.B > 0 && len(exp) >= 2 && es == gs && !dup {
+					vkProbeFaultyLoad(t, res, c, b.ID, si, o, p, es, expKeys, prefix)
+				}
 				switch {
 				case dup:
 					fail("pairs", es, fmt.Sprint(out), base+"duplicate-key")
